@@ -46,6 +46,16 @@ def run(db, rep, feat, tier):
             i["key"] = "R5." + i["key"]
             i["rule"] = rr.id
     idxkind.rule(db, rep, "R7")
+    # an indirect branch is resolved with RefProgramLocation::from_address: the address lookup must be exhaustive (C18.R4)
+    import props.c18 as c18
+    before = len(rep.rules)
+    c18.r4(db, rep)
+    for rr in rep.rules[before:]:
+        rr.id = "R8." + rr.id
+        rr.floors = []
+        for i in rr.instances:
+            i["key"] = "R8." + i["key"]
+            i["rule"] = rr.id
     r6 = rep.rule("R6", "K8", "no undischarged panic site reachable from Driver::step / State::execute inside lib/executor")
     panics.reach_rule(db, rep, r6, [STEP, EXEC], scope_prefixes=("executor::",), site_allow=SITE_ALLOW,
                       extra_discharge=discharge)
